@@ -52,10 +52,15 @@ def run(ctx):
     sevs = part(ctx, "p2p", "TestVerifSession$", "SessionTrace.tla", "SessionTrace.cfg", "session.ndjson", {"VERIF_SESSIONS": 150 if q else 3000},
                 r"VERIF-STAT events=(\d+) sessions=(\d+)", ssig)
     ctx.samples += [{k: e[k] for k in ("tamper", "snappy", "firstBad", "err", "hsErrI", "hsErrR")} | {"sent": len(e["sent"]), "delivered": len(e["delivered"])} for e in sevs if e["e"] == "session"][40:43]
-    ctx.assumptions = ["hash check features come from golang.org/x/crypto/sha3; signatures are made with the repository's crypto.Sign",
+    pevs = part(ctx, "aqua", "TestVerifProto$", "ProtoTrace.tla", "ProtoTrace.cfg", "proto.ndjson", {}, r"VERIF-STAT events=(\d+)",
+                lambda e: ("proto", e["code"] if e["code"] < 100 else 100, e["class"], e["outcome"], e["err"][:30]))
+    ctx.samples += [e for e in pevs if e["class"] == "hostile-params"][:2]
+    ctx.assumptions = ["sub-protocol: the message pipe is synchronous, so 'the sentinel request was consumed' = the message was handled and the peer kept; 'handle returned' = dropped",
+                       "hash check features come from golang.org/x/crypto/sha3; signatures are made with the repository's crypto.Sign",
                        "the man in the middle sits under the writer's rlpx layer (it sees and alters exactly the bytes that go on the wire); frames are altered per message, handshake packets per packet",
                        "allocation bounds: 256 KiB per datagram, 256 MiB for reading one (at most 16 MiB) message including decompression and the reader's copy, 1 MiB per handshake",
                        "a datagram is 'solicited' when a pending request of its type is registered for the sender (key K2); key K never has one"]
     vlib.write_evidence(ctx, rule="every truncation, every 3rd (quick) / every (thorough) byte position x 3 substitutions x {raw, re-hashed, re-signed}, 256 type bytes x 7 lengths, "
         "malformed-RLP corpus x 4 types, random datagrams of 16 length classes, x 2 wire dialects; RLPx: untampered sessions up to the 16 MiB limit, 22+ handshake tamper points per packet, "
-        "150 (quick) / 3000 (thorough) frame-tampered sessions over 9 adversary actions x 6 offset classes, 18 hostile-frame and 33 hostile-handshake cases; distinct = distinct (dialect, kind, type, outcome, error prefix)")
+        "150 (quick) / 3000 (thorough) frame-tampered sessions over 9 adversary actions x 6 offset classes, 18 hostile-frame and 33 hostile-handshake cases; sub-protocol: 11 message codes x {valid, empty, 6 malformed RLP, oversize, every 7th (quick) / every (thorough) truncation and bit flip, random} "
+        "+ status / unknown codes + 18 well-formed requests with hostile parameters; distinct = distinct (dialect, kind, type, outcome, error prefix)")
